@@ -387,14 +387,15 @@ namespace micm
       throw std::system_error(make_error_code(MicmSolverBuilderErrc::MissingReactions), "Missing reactions.");
     }
     using SolverPolicy = typename SolverParametersPolicy::template SolverType<RatesPolicy, LinearSolverPolicy>;
-    auto species_map = this->GetSpeciesMap();
-    auto labels = this->GetCustomParameterLabels();
+    // the species map (and the state reordering it may perform) needs at least one species
     std::size_t number_of_species = this->system_.StateSize();
     if (number_of_species == 0)
     {
       throw std::system_error(
           make_error_code(MicmSolverBuilderErrc::MissingChemicalSpecies), "Provided chemical system contains no species.");
     }
+    auto species_map = this->GetSpeciesMap();
+    auto labels = this->GetCustomParameterLabels();
 
     this->UnusedSpeciesCheck();
 
